@@ -137,6 +137,7 @@ fn generate(corpus: &Corpus, tier: Tier, run: u64, rng: &mut Rng) -> Option<Case
         resets: rng.chance(1, 6),
         continue_max: rng.chance(1, 3),
         jump_functions: rng.chance(1, 2),
+        eval_any_knot: rng.chance(1, 2),
     };
     let mut ops = gen_script(rng, &prog, &cfg);
     // the operands of the harness-checked arithmetic sites are not host-assigned
